@@ -20,7 +20,7 @@ def gen_cases(rng, tier):
     n = {'quick': 260, 'thorough': 5000, 'search': 150}[tier]
     cases = []
     while len(cases) < n:
-        kind = rng.choice(['cubic', 'ortho', 'ortho', 'tri'])
+        kind = rng.choice(['cubic', 'ortho', 'hex', 'mono', 'tri'])
         m = synth.int_lattice(rng, kind)
         ns = rng.randint(2, 7)
         pts = set()
